@@ -9,7 +9,7 @@ Import ListNotations.
 
 Definition idle (l : VB) : Prop :=
   vb_new l = None /\ vb_blk l = None /\ vb_limbo l = None /\ vb_pend l = None /\ vb_freed l = [] /\ vb_full l = None /\
-  vb_move l = None /\ vb_cur l = None /\ vb_dead l = None.
+  vb_move l = None /\ vb_cur l = None /\ vb_dead l = None /\ vb_s0 l = None.
 
 Section ProgB2.
   Variable c : cfg.
@@ -67,22 +67,22 @@ Section ProgB2.
   Lemma idle_set_node l x : idle l -> idle (set_node l x). Proof. unfold idle. cbn. tauto. Qed.
 
   Lemma alloc_thread_data_spec t l (Q : option nat -> VB -> Prop) :
-    idle l -> (forall r l', ext l l' -> In r (vb_own l') -> Q (Some r) l') -> (forall l', Q None l') ->
+    idle l -> (forall r l', ext l l' -> In r (vb_own l') -> vb_arr l' = Some r -> Q (Some r) l') -> (forall l', Q None l') ->
     dsafeB c t (alloc_thread_data c (S t)) l Q.
   Proof.
     intros Hi HQ HN. unfold alloc_thread_data.
     assert (Hfin : forall r l', ext l l' -> In r (vb_own l') ->
               dsafeB c t (xbind (loc (hp_init c r)) (fun _ => xbind (rt_init c r) (fun _ => ret r))) l' Q).
-    { intros r l' (Hi' & Hx) Hr. pose proof Hi' as (I1 & I2 & I3 & I4 & I5 & I6 & I7 & I8 & I9).
+    { intros r l' (Hi' & Hx) Hr. pose proof Hi' as (I1 & I2 & I3 & I4 & I5 & I6 & I7 & I8 & I9 & I10).
       apply dsafeB_xloc_q; [intros; apply piB_hp_init|]. intros _. apply dsafeB_xbind. apply rt_init_spec; auto; try congruence.
-      cbn beta iota. apply dsafeB_ret. apply HQ; auto. split; auto. }
+      cbn beta iota. apply dsafeB_ret. apply HQ; auto. split; [unfold idle in *; cbn; tauto|cbn; auto]. }
     apply dsafeB_xact. intros g a tr Hv. unfold viewB in Hv. exists (setv a t (set_node (bvs a t) (tlist g))). split; [eapply frame_bvs; reflexivity|]. split.
     { intros _ _ J. apply S_node; [|apply JB_quiet_ev; [apply qev_acc|exact J]]. intros h E. eapply JB_tl_head; eauto. }
     unfold viewB. cbn [bvs setv fst snd a_ld_tlist]. rewrite fn_same, Hv. generalize (tlist g) as node. clear g a tr Hv. intros node. apply dsafeB_xbind.
     assert (Hi1 : idle (set_node l node)) by (apply idle_set_node; exact Hi).
     apply reuse_recs_spec; [exact Hi1|intros h E; exact E| | |exact HN].
     - intros h l' (X1 & X2) Hh. cbn beta iota. apply dsafeB_xbind. apply dsafeB_ret. cbn beta iota. apply Hfin; auto. split; auto.
-    - intros l' (X1 & X2). cbn beta iota. apply dsafeB_xbind. pose proof X1 as (I1 & I2 & I3 & I4 & I5 & I6 & I7 & I8 & I9).
+    - intros l' (X1 & X2). cbn beta iota. apply dsafeB_xbind. pose proof X1 as (I1 & I2 & I3 & I4 & I5 & I6 & I7 & I8 & I9 & I10).
       apply dsafeB_xloc. intros g a tr Hv. unfold viewB in Hv. exists (aux_newrec a t (List.length (recs g))). split; [eapply frame_bvs; reflexivity|]. split.
       { intros J. apply S_newrec; [rewrite Hv; exact I1|exact J]. }
       unfold viewB. cbn [bvs aux_newrec fst snd new_rec]. rewrite fn_same, Hv. set (r := List.length (recs g)). clearbody r. clear g a tr Hv.
